@@ -199,6 +199,77 @@ def judge(scen, limit=20):
     return out, cyc is not None
 
 
+def extra_orders(n, tier, idx):
+    """work-list orders (hash orders of the simulators) beyond the default start order"""
+    sids = SIDS[:n]
+    perms = [list(p) for p in itertools.permutations(sids)][1:]
+    if tier == "thorough" or n <= 2:
+        return perms
+    rev = sids[::-1]
+    # quick: the reverse order for every graph, plus one more (rotating through the rest)
+    rest = [p for p in perms if p != rev]
+    return [rev, rest[idx % len(rest)]]
+
+
+def judge_order(scen, order, limit=20):
+    """the decision of the cycle check alone (no run) when its work lists are processed in
+    another order; must agree with the reference just like the default order"""
+    from .harness import Run
+    from . import stubs, env as _env
+    topo = Topo(scen)
+    cyc = topo.unresolved_cycle()
+    run = Run(scen, dict(gates=(), hash_order=order), None)
+    stubs.CTX = run
+    _env.LOG_SINK.append(run.logs)
+    out = []
+
+    def add(kind, msg, cls=None):
+        out.append(dict(prop="C06", kind=kind, cls=cls, msg=msg + f" [work-list order {order}]",
+                        hash_order=order))
+    signal.signal(signal.SIGALRM, _alarm)
+    signal.alarm(limit)
+    try:
+        try:
+            run.build()
+        except Exception as e:  # noqa: BLE001
+            add("connect-failed", f"connect() raised {type(e).__name__} for {_fmt(scen)}")
+            return out
+        w = run.world
+        try:
+            w.ensure_no_dataflow_cycles()
+            w.cache_triggering_ancestors()
+            res = ("accept",)
+        except _Timeout:
+            res = ("timeout",)
+        except Exception as e:  # noqa: BLE001
+            res = (type(e).__name__, str(e))
+    except _Timeout:
+        res = ("timeout",)
+    finally:
+        signal.alarm(0)
+        _env.LOG_SINK.pop()
+        try:
+            run.world.shutdown()
+        except Exception:  # noqa: BLE001
+            pass
+        run.dead = True
+        stubs.CTX = None
+    if res[0] == "timeout":
+        add("does-not-terminate", f"the cycle check did not return within {limit} s for {_fmt(scen)}")
+    elif res[0] == "AssertionError" and "incomparable" in res[1]:
+        add("incomparable-assertion", f"the cycle check ended with {res} (reference: "
+            f"{'unresolved cycle ' + str(cyc) if cyc else 'accepted'}): {_fmt(scen)}",
+            "incomparable-in-closure")
+    elif cyc is not None and res[0] != "ScenarioError":
+        add("unresolved-cycle-accepted",
+            f"reference finds the unresolved cycle {cyc} but the cycle check ended with {res[:1]}: {_fmt(scen)}")
+    elif cyc is None and res[0] == "ScenarioError":
+        add("resolved-cycle-rejected", f"no unresolved cycle but the check raised: {res[1][:120]}: {_fmt(scen)}")
+    elif cyc is None and res[0] != "accept":
+        add("accepted-scenario-failed", f"the cycle check ended with {res}: {_fmt(scen)}")
+    return out
+
+
 def _walk_problem(topo, walk):
     if len(walk) < 2 or walk[0] != walk[-1]:
         return "not a closed walk"
@@ -225,18 +296,26 @@ def _fmt(scen):
 def _work(args):
     n, chunk = args
     res = []
-    for place, cs in chunk:
+    for idx, (place, cs) in enumerate(chunk):
         scen = to_scen(n, place, cs)
         try:
             v, cyc = judge(scen)
+            for order in extra_orders(n, TIER[0], idx):
+                v = v + judge_order(scen, order)
         except Exception as e:  # noqa: BLE001
             v, cyc = [dict(prop="C06", kind="harness-error", cls=None, msg=repr(e)[:200])], False
         res.append((v, cyc, scen if v else None))
     return res
 
 
+TIER = ["quick"]
+
+
 def replay(doc):
-    v, cyc = judge(doc["scenario"])
+    if doc.get("hash_order"):
+        v, cyc = judge_order(doc["scenario"], doc["hash_order"]), None
+    else:
+        v, cyc = judge(doc["scenario"])
     for x in v:
         print("REPRODUCED", x["kind"], x["msg"])
     if not v:
@@ -246,6 +325,7 @@ def replay(doc):
 
 def check(prop, tier):
     t0 = time.time()
+    TIER[0] = tier
     fams = [(1, 4, False), (2, 4, False), (3, 4, False), (2, 3, True), (3, 3, True)] if tier == "quick" \
         else [(1, 5, False), (2, 5, False), (3, 5, False), (2, 4, True), (3, 4, True)]
     jobs = []
@@ -290,9 +370,13 @@ def check(prop, tier):
                         if x["kind"] == "harness-error":
                             print("MACHINERY-ERROR", x["msg"])
                             return 2
-                        rep.report(x, dict(kind="call", module="mc.enum_c06", scenario=scen))
+                        rep.report(x, dict(kind="call", module="mc.enum_c06", scenario=scen,
+                                           hash_order=x.get("hash_order")))
     for scen in slow[:20]:
         v, cyc = judge(scen, limit=180)
+        n_ = len(scen["sims"])
+        for order in [list(p) for p in itertools.permutations(SIDS[:n_])][1:]:
+            v = v + judge_order(scen, order, limit=180)
         for x in v:
             sg = (x["kind"], x["cls"])
             kinds[sg] = kinds.get(sg, 0) + 1
@@ -302,6 +386,9 @@ def check(prop, tier):
     cov = dict(
         states=total, transitions=total, traces_validated_against_impl=total,
         evaluations=total, distinct_nontrivial=cyc_n,
+        work_list_orders="every graph is also decided with the cycle check's work lists processed "
+                         "in other orders (hash order of the simulators set by the harness): n<=2 "
+                         "all orders, n>=3 the reverse and one more (quick) / all (thorough)",
         rule="one evaluation = world.run() on one connection multigraph (canonical up to renaming "
              "of simulators); non-trivial = the reference finds an unresolved cycle (the rest are "
              "accepted scenarios, which must run to completion)",
